@@ -47,7 +47,17 @@ pub struct AbsCfg {
 
 fn text(rng: &mut Rng, page: i32, tok: &str, max: usize) -> String {
     let reper = cpora::repertoire(page, 8);
-    let mut s = tok.to_string();
+    let mut s = String::new();
+    // one in twelve: the encoded form starts with bytes that look like a byte-order mark
+    if rng.chance(1, 12) {
+        let marks: [&[u8]; 3] = [&[0xFF, 0xFE], &[0xFE, 0xFF], &[0xEF, 0xBB, 0xBF]];
+        let m = *rng.pick(&marks);
+        let d = cpora::decode(page, m);
+        if !d.contains('\u{fffd}') && cpora::encode(page, &d) == m {
+            s.push_str(&d);
+        }
+    }
+    s.push_str(tok);
     let extra = rng.usize(8);
     for _ in 0..extra {
         if !reper.is_empty() && rng.chance(1, 3) {
